@@ -12,10 +12,10 @@ code compares corner SETS —, touching an orphan point that the comparator stri
 classified and not asserted; neither are meshes whose own point spacing is below the mesh tolerance.
 
 Correspondence (implementation vs Lean model through the driver):
-  * `src.domain.equals(ref.domain)` vs `Fc.meshEqualWith`, and the model against `Spec.meshEqualSpec`;
+  * `src.domain.equals(ref.domain)` vs `Fc.C03.meshEqualWith`, and the model against `Fc.C03.meshEqualSpec`;
   * the whole comparator: the (source, reference) pairs of every rung are produced with the implementation's
-    own public transformations; the model runs the ladder's control flow (`Spec.ladder`) over that chain,
-    evaluating `Fc.equals` (Mesh = min of both tolerances, PermutedMesh = receiver's) and the field
+    own public transformations; the model runs the ladder's control flow (`Fc.C03.ladder`) over that chain,
+    evaluating `Fc.C16.equals` (Mesh = min of both tolerances, PermutedMesh = receiver's) and the field
     comparisons on every visited rung; observable = (bool(domain_equality_check), bool(suite)).
 """
 from __future__ import annotations
